@@ -138,6 +138,19 @@ func (tc *tokenConverter) handleCompoundToken(t models.TokenWithSpan) []token.To
 		}
 	}
 
+	// The spelling-based fallback below is for keyword tokens only: the
+	// content of a literal or of a quoted name ('order by', "left join") is
+	// never a keyword.
+	switch t.Token.Type {
+	case models.TokenTypeString, models.TokenTypeSingleQuotedString, models.TokenTypeDoubleQuotedString,
+		models.TokenTypeDollarQuotedString, models.TokenTypeTripleSingleQuotedString, models.TokenTypeTripleDoubleQuotedString,
+		models.TokenTypeNumber, models.TokenTypePlaceholder:
+		return nil
+	}
+	if t.Token.Quote != 0 {
+		return nil
+	}
+
 	switch strings.ToUpper(t.Token.Value) {
 	case "INNER JOIN":
 		return []token.Token{
